@@ -523,6 +523,16 @@ def gen_case(rng, tier):
             if rng.random() < 0.3:
                 items.append(['pq%d' % i, M({'in': gen_probe(rng), 'l': Q([gen_probe(rng), S(1)])})])
             docs[i] = dict(docs[i], m=docs[i]['m'] + items)
+            # a LATER document patches one component of the probe through a mapping with an index key: the path node survives
+            # (it is merged, not replaced) and still denotes a location relative to the file in which IT was written, not the
+            # file of the patch (seeded change S5-C06: the survivor took over the other node's source file)
+            pr = items[0][1]
+            cand = [j for j in range(i + 1, n) if not docs[j].get('kw')]      # untagged on both sides: the patch is not outranked
+            if 'q' in pr and pr['q'] and not pr.get('kw') and not docs[i].get('kw') and cand and rng.random() < 0.45:
+                j = rng.choice(cand)
+                ix = rng.randrange(len(pr['q']))
+                comp = 'F_p'                  # file-relative probes are recognised (and masked where files move) by the F_ prefix
+                docs[j] = dict(docs[j], m=docs[j]['m'] + [['pp%d' % i, M([(ix, S(comp))])]])
     # partition into files
     groups, cur = [], []
     for i in range(n):
@@ -825,7 +835,15 @@ class C06(Prop):
                     v = val_get(top, [k])
                     if not (isinstance(v, dict) and 'path' in v):
                         continue
-                    d = self.check_probe(raw, v['path'], p, p['docfile'][i])
+                    patched = raw
+                    for doc2 in case['docs'][i + 1:]:        # component patches of later documents (index mappings)
+                        for k2, r2 in doc2['m']:
+                            if k2 == k and 'm' in r2 and 'q' in patched:
+                                q = list(patched['q'])
+                                for ix, c2 in r2['m']:
+                                    q[sc_py(ix)] = c2
+                                patched = dict(patched, q=q)
+                    d = self.check_probe(patched, v['path'], p, p['docfile'][i])
                     if d:
                         src_i = p['docsrc'][i] or ''
                         risky = raw['t']['f'].startswith('parent') and (
